@@ -154,8 +154,8 @@ def Found.pyPath : Found → Option (List Parts)
   | .mod _ => none
   | .ns ds => some ds
 
-/-- `import_module(import_names, parent_module_value, sys_path)`; `find` = what
-`compiled_subprocess.get_module_info` answers -/
+/-- `import_module(import_names, parent_module_value, sys_path)` below its caching decorator;
+`find` = what `compiled_subprocess.get_module_info` answers -/
 def importModule (find : String → List Parts → Option Found) (sysPath : List Parts)
     (parent : Option Found) (name : String) : List Found :=
   match parent with
@@ -165,32 +165,40 @@ def importModule (find : String → List Parts → Option Found) (sysPath : List
     | none => []
     | some paths => (find name paths).toList
 
-/-- the loop of `import_module_by_names`: `base = [None]`; every step is the union over `base` -/
-def walkFrom (find : String → List Parts → Option Found) (sysPath : List Parts) :
-    List (Option Found) → List String → List Found
-  | base, [] => base.filterMap id
-  | base, n :: rest =>
-    let valueSet := base.flatMap (fun parent => importModule find sysPath parent n)
-    if valueSet.isEmpty then [] else walkFrom find sysPath (valueSet.map some) rest
+/-- the loop of `import_module_by_names`: `base = [None]`; every step is the union over `base` of
+`import_module(names[:i+1], parent)`, which `import_module_decorator` answers from
+`inference_state.module_cache` when the prefix is cached (`cache`; `Script._get_module` seeds it
+with the analysed module under the name `transform_path_to_dotted` derived). -/
+def walkFrom (find : String → List Parts → Option Found) (cache : List String → Option Found)
+    (sysPath : List Parts) : List String → List (Option Found) → List String → List Found
+  | _, base, [] => base.filterMap id
+  | pref, base, n :: rest =>
+    let valueSet := match cache (pref ++ [n]) with
+      | some f => if base.isEmpty then [] else [f]
+      | none => base.flatMap (fun parent => importModule find sysPath parent n)
+    if valueSet.isEmpty then [] else walkFrom find cache sysPath (pref ++ [n]) (valueSet.map some) rest
 
-def importModuleByNames (find : String → List Parts → Option Found) (sysPath : List Parts)
-    (names : List String) : List Found :=
-  walkFrom find sysPath [none] names
+def importModuleByNames (find : String → List Parts → Option Found) (cache : List String → Option Found)
+    (sysPath : List Parts) (names : List String) : List Found :=
+  walkFrom find cache sysPath [] [none] names
 
-/-- `Importer.follow()` without the module caches.  `sysPathMods` = the composed project path plus
-detected modifications (see `SysPath.importSearchPath`). -/
+/-- `Importer.follow()`.  `sysPathMods` = the composed project path plus detected modifications
+(see `SysPath.importSearchPath`); `cache` = `module_cache` (the stub cache is empty here). -/
 def Importer.follow (imp : Importer) (find : String → List Parts → Option Found)
-    (sysPathMods : List Parts) : List Found :=
+    (cache : List String → Option Found) (sysPathMods : List Parts) : List Found :=
   if imp.importPath.isEmpty then
     match imp.fixedSysPath with
     | some (d, _) => [.ns [d]]
     | none => []
   else if !imp.inferPossible then []
   else
-    let sp := match imp.fixedSysPath with
-      | some (d, isStr) => if isStr then [d] else []     -- `PathFinder` skips entries that are not `str`
-      | none => sysPathMods
-    importModuleByNames find sp imp.importPath
+    match cache imp.importPath with
+    | some f => [f]
+    | none =>
+      let sp := match imp.fixedSysPath with
+        | some (d, isStr) => if isStr then [d] else []     -- `PathFinder` skips entries that are not `str`
+        | none => sysPathMods
+      importModuleByNames find cache sp imp.importPath
 
 /-- result of following an import name -/
 inductive Target where
